@@ -34,6 +34,8 @@ THEOREMS = [
     "Optyx.Props.C20.base_exception_propagates",
     "Optyx.Props.C20.fault_preserves_cache_validity",
     "Optyx.Props.C20.next_solve_unaffected",
+    "Optyx.Props.Dispatch.solve_autoSelect_eq_generated",
+    "Optyx.Props.Dispatch.solve_route_eq_generated",
 ]
 ASSUMPTIONS = [
     "one injected fault per solve (after it fires the call ends: FAILED solution or propagation)",
@@ -300,7 +302,7 @@ def fault_histories(rep, rng, thorough, with_model=True):
     problem, then a clean solve — compared with a twin that went through the same edit but never saw a fault;
     every call of the history is also compared with the stateful Lean model"""
     lines, texts, metas = [], [], []
-    n = 3000 if thorough else 600
+    n = 2000 if thorough else 600
     for i in range(n):
         shape = ["B", "E", "IL", "I", "C"][i % 5]
         spec = TABLE_SHAPES[shape]
